@@ -15,7 +15,7 @@ from ..world import World, inventory
 
 ID = "C11"
 LEVEL = "exploration"
-BUDGET = {"quick": {"n": 600, "wall_s": 420}, "thorough": {"n": 8000, "wall_s": 3300}}
+BUDGET = {"quick": {"n": 900, "wall_s": 420}, "thorough": {"n": 8000, "wall_s": 3300}}
 RULE = ("per case: world as in C02 (hostile names incl. quotes, $, newlines, invalid UTF-8; hard links; several roots) x "
         "operation x options (-n, --priority, patterns); the dry-run script is (1) executed by bash on the tree and "
         "compared with the real run on a rebuilt identical tree (remove/link/link --soft), (2) tokenised by bash and "
